@@ -4,6 +4,7 @@ import os
 import shutil
 import subprocess
 import tempfile
+import time
 
 VERIF = os.path.dirname(os.path.dirname(os.path.abspath(__file__)))
 WORK = os.path.join(VERIF, '.work')
@@ -31,46 +32,77 @@ def build():
     return _built
 
 
-def run_jobs(jobs, timeout_per_job=20):
-    """jobs: list of job texts (first line command, rest payload).  Returns list of dicts (status in
-    ok|err|panic|crash|timeout)."""
-    exe = build()
+def _run_chunk(exe, jobs, timeout_per_job):
+    """one vreplay process over one job directory; a job that makes no progress for timeout_per_job seconds is killed and
+    reported as `timeout`, a job during which the process dies as `crash`; the process is restarted for the remaining jobs"""
     d = tempfile.mkdtemp(prefix='vreplay-', dir=WORK)
     try:
         for i, j in enumerate(jobs):
             with open(os.path.join(d, '%d.job' % i), 'w') as f:
                 f.write(j)
-        results = [None] * len(jobs)
-        guard = 0
-        while any(r is None for r in results) and guard < len(jobs) + 2:
-            guard += 1
-            try:
-                p = subprocess.run([exe, d], capture_output=True, text=True,
-                                   timeout=timeout_per_job * max(1, sum(1 for r in results if r is None)))
-                rc, timed_out = p.returncode, False
-            except subprocess.TimeoutExpired:
-                rc, timed_out = -1, True
-            for i in range(len(jobs)):
-                if results[i] is not None:
-                    continue
-                out = os.path.join(d, '%d.out' % i)
-                if os.path.exists(out):
-                    try:
-                        results[i] = json.load(open(out))
-                    except Exception as ex:
-                        results[i] = dict(status='crash', err='unreadable output: %s' % ex)
-                elif os.path.exists(os.path.join(d, '%d.started' % i)):
-                    st = 'timeout' if timed_out else 'crash'
-                    results[i] = dict(status=st, err='process %s (rc=%s) while running this job' % (st, rc))
-                    with open(out, 'w') as f:
-                        json.dump(results[i], f)
+        n = len(jobs)
+        results = [None] * n
+        nxt = 0
+        restarts = 0
+        while nxt < n:
+            restarts += 1
+            if restarts > n + 2:
+                raise ReplayBuildError('vreplay makes no progress')
+            p = subprocess.Popen([exe, d], stdout=subprocess.DEVNULL, stderr=subprocess.PIPE, text=True)
+            last = time.time()
+            timed_out = False
+            start_nxt = nxt
+            while True:
+                rc = p.poll()
+                adv = False
+                while nxt < n and os.path.exists(os.path.join(d, '%d.out' % nxt)) and (rc is not None or os.path.exists(os.path.join(d, '%d.started' % (nxt + 1))) or nxt + 1 == n):
+                    nxt += 1
+                    adv = True
+                if adv:
+                    last = time.time()
+                if rc is not None:
                     break
-            else:
-                if rc != 0 and not timed_out and any(r is None for r in results):
-                    raise ReplayBuildError('vreplay exited %s without progress' % rc)
+                if time.time() - last > timeout_per_job:
+                    timed_out = True
+                    p.kill()
+                    p.wait()
+                    rc = -9
+                    break
+                time.sleep(0.02)
+            # collect everything that has an .out file
+            while nxt < n and os.path.exists(os.path.join(d, '%d.out' % nxt)):
+                nxt += 1
+            if nxt < n:
+                if os.path.exists(os.path.join(d, '%d.started' % nxt)):
+                    st = 'timeout' if timed_out else 'crash'
+                    with open(os.path.join(d, '%d.out' % nxt), 'w') as f:
+                        json.dump(dict(status=st, err='process %s (rc=%s) while running this job' % (st, rc)), f)
+                    nxt += 1
+                elif nxt == start_nxt and not timed_out:
+                    raise ReplayBuildError('vreplay exited %s without progress: %s' % (rc, (p.stderr.read() if p.stderr else '')[-500:]))
+        for i in range(n):
+            try:
+                results[i] = json.load(open(os.path.join(d, '%d.out' % i)))
+            except Exception as ex:
+                results[i] = dict(status='crash', err='unreadable output: %s' % ex)
         return results
     finally:
         shutil.rmtree(d, ignore_errors=True)
+
+
+def run_jobs(jobs, timeout_per_job=20):
+    """jobs: list of job texts (first line command, rest payload).  Returns list of dicts (status in
+    ok|err|panic|crash|timeout).  Large batches are spread over several processes."""
+    exe = build()
+    k = max(1, min(12, len(jobs) // 1500))
+    if k == 1:
+        return _run_chunk(exe, jobs, timeout_per_job)
+    size = (len(jobs) + k - 1) // k
+    chunks = [jobs[i:i + size] for i in range(0, len(jobs), size)]
+    from concurrent.futures import ThreadPoolExecutor
+    with ThreadPoolExecutor(len(chunks)) as ex:
+        parts = list(ex.map(lambda c: _run_chunk(exe, c, timeout_per_job), chunks))
+    return [r for part in parts for r in part]
 
 
 def build_src(src):
